@@ -332,6 +332,21 @@ impl<'a, T: Read + Write + Seek> PointCloudWriter<'a, T> {
             }
         }
 
+        // Integer ranges must not be empty, no value could be stored and readers refuse the file
+        for record in prototype {
+            match record.data_type {
+                RecordDataType::Integer { min, max }
+                | RecordDataType::ScaledInteger { min, max, .. }
+                    if max < min =>
+                {
+                    Error::invalid(format!(
+                        "The maximum {max} of an integer record is smaller than its minimum {min}"
+                    ))?
+                }
+                _ => {}
+            }
+        }
+
         Ok(())
     }
 
